@@ -30,6 +30,7 @@ func (core *JApiCore) collectPiecesOfPathVariables() *jerr.JApiError {
 
 	for i := 0; i < len(core.rawPathVariables); i++ {
 		var schemaProps map[string]ischema.Node
+		var typeProps map[string]schema.ASTNode
 		var types map[string]ischema.Type
 
 		if !core.rawPathVariables[i].imitated {
@@ -40,6 +41,7 @@ func (core *JApiCore) collectPiecesOfPathVariables() *jerr.JApiError {
 				JSchema: core.rawPathVariables[i].schema,
 			}
 			schemaProps = obj.ObjectFirstLevelProperties(ut)
+			typeProps = obj.TypePropertiesAST(ut)
 			types = core.rawPathVariables[i].schema.InnerTypesList()
 		}
 
@@ -62,11 +64,15 @@ func (core *JApiCore) collectPiecesOfPathVariables() *jerr.JApiError {
 			}
 
 			if defined {
-				core.piecesOfPathVariables[pp] = PieceOfPathVariable{
+				piece := PieceOfPathVariable{
 					node:          paramSchema,
 					types:         types,
 					pathDirective: &core.rawPathVariables[i].pathDirective,
 				}
+				if an, ok := typeProps[pp.parameter]; ok {
+					piece.ast = &an
+				}
+				core.piecesOfPathVariables[pp] = piece
 				delete(schemaProps, pp.parameter)
 			} else if !registered {
 				core.piecesOfPathVariables[pp] = PieceOfPathVariableImitation()
@@ -93,7 +99,7 @@ func (core *JApiCore) setPathVariablesToCatalog() *jerr.JApiError {
 				var pathDirective *directive.Directive
 				for _, p := range pp {
 					if piece, ok := core.piecesOfPathVariables[p]; ok {
-						b.AddProperty(p.parameter, piece.node.Copy(), piece.types)
+						b.AddProperty(p.parameter, piece.node.Copy(), piece.types, piece.ast)
 						if pathDirective == nil {
 							pathDirective = piece.pathDirective
 						}
@@ -133,7 +139,7 @@ func (core *JApiCore) faultyPathDirective(pp []PathParameter) *directive.Directi
 			continue
 		}
 		b := catalog.NewPathVariablesBuilder(core.catalog.UserTypes)
-		b.AddProperty(p.parameter, piece.node.Copy(), piece.types)
+		b.AddProperty(p.parameter, piece.node.Copy(), piece.types, piece.ast)
 		if _, err := buildPathVariables(b); err != nil {
 			return piece.pathDirective
 		}
